@@ -12,6 +12,7 @@ VARIABLES l, good, nacc
 tvars == <<vars, l, good, nacc>>
 Ev == Trace[l]
 M(name, cond) == Must(Ev.tid, l, name, cond)
+D(name, cond) == Drift(Ev.tid, l, name, cond)
 
 TInit == /\ Init /\ l = 1 /\ good = TRUE /\ nacc = 0
 
@@ -27,29 +28,33 @@ Begin ==
 (* Sweep!Choose computes the edge table, the indexes and the initial arrays *)
 Setup == /\ pc = "start" /\ Choose /\ UNCHANGED <<l, good, nacc>>
 
+(* internal state of the sweep: conformance only (a refactored kernel may keep different intermediates) *)
 StateMatches ==
-    /\ M("left", left = Ev.left) /\ M("a", a = Ev.a + 1) /\ M("b", b = Ev.b + 1) /\ M("d", d = Ev.d + 1)
-    /\ M("edges_mutations", \A e \in 1..NE : st.muts[e] = Ev.emuts[e])
-    /\ M("edges_span", \A e \in 1..NE : st.span[e] = Ev.espan[e])
-    /\ M("nodes_samples", \A u \in Nodes : st.ns[u] = Ev.ns[u + 1])
-    /\ M("nodes_edge", \A u \in Nodes : st.ne[u] = Ev.ne[u + 1])
-    /\ M("nodes_parent", \A u \in Nodes : st.np[u] = Ev.np[u + 1])
-    /\ M("mutations_edge", \A k \in 1..Len(mutq) : st.medge[k] = Ev.medge[k])
+    /\ D("left", left = Ev.left) /\ D("a", a = Ev.a + 1) /\ D("b", b = Ev.b + 1) /\ D("d", d = Ev.d + 1)
+    /\ D("edges_mutations", \A e \in 1..NE : st.muts[e] = Ev.emuts[e])
+    /\ D("edges_span", \A e \in 1..NE : st.span[e] = Ev.espan[e])
+    /\ D("nodes_samples", \A u \in Nodes : st.ns[u] = Ev.ns[u + 1])
+    /\ D("nodes_edge", \A u \in Nodes : st.ne[u] = Ev.ne[u + 1])
+    /\ D("nodes_parent", \A u \in Nodes : st.np[u] = Ev.np[u + 1])
+    /\ D("mutations_edge", \A k \in 1..Len(mutq) : st.medge[k] = Ev.medge[k])
 
 LoopHead ==
     /\ l <= Len(Trace) /\ Ev.kind = "head" /\ pc = "loop"
-    /\ good' = (good /\ StateMatches)
+    /\ StateMatches /\ good' = good
     /\ IF a <= NE \/ b <= NE THEN Step ELSE Finish
     /\ l' = l + 1 /\ UNCHANGED nacc
 
 End ==
     /\ l <= Len(Trace) /\ Ev.kind = "end"
     /\ LET ok == /\ good
-                 /\ M("loop ran to completion", pc = "done")
-                 /\ M("returned edges_mutations", \A e \in 1..NE : st.muts[e] = Ev.emuts[e])
-                 /\ M("returned edges_span", \A e \in 1..NE : st.span[e] = Ev.espan[e])
-                 /\ M("returned mutations_edge", \A k \in 1..Len(mutq) : st.medge[k] = Ev.medge[k])
-                 /\ M("tallies equal the declarative definition", TalliesExact)
+                 /\ D("machine ran to completion", pc = "done")
+                 /\ D("returned arrays equal the machine's final state",
+                      /\ \A e \in 1..NE : st.muts[e] = Ev.emuts[e] /\ st.span[e] = Ev.espan[e]
+                      /\ \A k \in 1..Len(mutq) : st.medge[k] = Ev.medge[k])
+                 (* C24 itself: what the call returned equals the declarative tally *)
+                 /\ M("returned edges_mutations = declarative", \A e \in 1..NE : Ev.emuts[e] = DeclMuts(e))
+                 /\ M("returned edges_span = declarative", \A e \in 1..NE : Ev.espan[e] = DeclSpan(e))
+                 /\ M("returned mutations_edge = declarative", \A k \in 1..Len(mutq) : Ev.medge[k] = DeclEdge(k))
        IN  nacc' = nacc + (IF ok THEN 1 ELSE 0)
     /\ l' = l + 1 /\ good' = TRUE
     /\ UNCHANGED vars
